@@ -495,7 +495,6 @@ func c18beforeRoundsG[T comparable](c *c20ctx, n1, n2, calls, lifetime, cleanup 
 	}, func() any { return fmt.Sprint(round, runOn, got) })
 }
 
-
 // c18onceTwo: two wrappers on two different caches of the same type, used by two goroutines at once (the
 // callbacks take a few scheduling points). They have nothing to do with each other: each callback runs
 // exactly once and each caller gets its own callback's result -- in every interleaving. (Whatever Once
